@@ -759,9 +759,24 @@ func (w *vWorld) storeDigest() []string {
 		if tp.State != types.StateOK {
 			st = fmt.Sprintf(" state=%d", tp.State)
 		}
-		out = append(out, fmt.Sprintf("store %s seq=%d del=%d owner=%s acs=%s/%s pub=%s tr=%s tags=[%s]%s subs[%s] msgs[%s] dellog[%s]", w.tname(n),
+		csubs := ""
+		if tp.UseBt {
+			// subscriptions of channel readers are rows of their own, stored under the `chn` spelling of the name
+			cs := []string{}
+			for _, s := range w.ad.vmemSubsOfTopic(types.GrpToChn(n)) {
+				e := fmt.Sprintf("%s:%s/%s:r%d:v%d:d%d:p=%s", w.uname(types.ParseUid(s.User)), vMode(s.ModeWant.String()), vMode(s.ModeGiven.String()),
+					s.ReadSeqId, s.RecvSeqId, s.DelId, vTok(s.Private))
+				if s.DeletedAt != nil {
+					e += ":deleted"
+				}
+				cs = append(cs, e)
+			}
+			sort.Strings(cs)
+			csubs = " csubs[" + strings.Join(cs, " ") + "]"
+		}
+		out = append(out, fmt.Sprintf("store %s seq=%d del=%d owner=%s acs=%s/%s pub=%s tr=%s tags=[%s]%s subs[%s]%s msgs[%s] dellog[%s]", w.tname(n),
 			tp.SeqId, tp.DelId, w.uname(types.ParseUid(tp.Owner)), vMode(tp.Access.Auth.String()), vMode(tp.Access.Anon.String()), vTok(tp.Public),
-			vTok(tp.Trusted), strings.Join(tp.Tags, ","), st, strings.Join(subs, " "), strings.Join(msgs, " "), strings.Join(dl, " ")))
+			vTok(tp.Trusted), strings.Join(tp.Tags, ","), st, strings.Join(subs, " "), csubs, strings.Join(msgs, " "), strings.Join(dl, " ")))
 	}
 	return out
 }
